@@ -57,7 +57,7 @@ Definition dec_pol (v : value) : option pol :=
   match v with
   | VL [VL a; VL b; VL c] =>
       match dec_aops a, dec_aops b, dec_aops c with
-      | Some a', Some b', Some c' => Some {| on_headers := a'; on_ready := b'; on_finished := c' |}
+      | Some a', Some b', Some c' => Some {| on_headers := fun _ => a'; on_ready := b'; on_finished := c'; hdr_after := false |}
       | _, _, _ => None
       end
   | _ => None
@@ -77,7 +77,7 @@ Fixpoint dec_urltab (l : list value) : option (list (bytes * (bool * bytes * lis
 
 Definition dec_env (v : value) : option env :=
   match v with
-  | VL [VB ver; VL tab] =>
+  | VL (VB ver :: VL tab :: _) =>             (* a third element (regex table) is for the router *)
       match dec_urltab tab with
       | Some t => Some {| version := ver; url_table := t |}
       | None => None
@@ -103,6 +103,8 @@ Definition ev_value (e : ev) : value :=
   | EDisc => VL [VI 9]
   | ENoSock => VL [VI 99]
   | ECrash => VL [VI (-1)]
+  | ENoOracle => VL [VI (-2)]
+  | ENote v => VL [VI 30; v]
   | EMark k => VL [VI 20; VI k]
   end.
 
